@@ -744,6 +744,10 @@ class Path:
         if isinstance(o, ModuleRef):
             return self.module_getattr(o, name)
         from . import models
+        if isinstance(o, models.SuperProxy):
+            return models.super_getattr(self, o, name)
+        if isinstance(o, Opaque) and str(o.tag).startswith("lenient:"):
+            return Opaque(f"{o.tag}.{name}")
         r = models.value_getattr(self, o, name)
         if r is not models.NOATTR:
             return r
@@ -803,6 +807,16 @@ class Path:
     def setattr(self, o, name, value):
         if isinstance(o, SUnion):
             o = self.choose(o)
+        if isinstance(o, ModuleRef):
+            ext = self.ghost.setdefault("ext", {})
+            full = f"{o.name}.{name}"
+            writer = self.frame.func.qualname if self.frame.func else "<module>"
+            self.trace.append(("write", full, writer, value))
+            ext[full] = value
+            return
+        if isinstance(o, Opaque) and str(o.tag).startswith("lenient:"):
+            self.trace.append(("opaque-write", o.tag, name))
+            return
         if not isinstance(o, SObj):
             raise Unsupported(f"setattr on {type(o).__name__}")
         if isinstance(o.cls, str) or name not in o.fields:
@@ -845,6 +859,10 @@ class Path:
     def module_getattr(self, m: ModuleRef, name):
         from . import models
         full = f"{m.name}.{name}"
+        ext = self.ghost.get("ext")
+        if ext is not None and full in ext:
+            self.trace.append(("read", full))
+            return ext[full]
         if m.name.startswith("_griffe"):
             mi = self.index.module(m.name)
             if mi is not None:
@@ -882,6 +900,8 @@ class Path:
         hook = self.opaque_hooks.get(f"{mi.name}:{name}")
         if hook is not None:
             return Builtin(f"{mi.name}:{name}", hook)
+        if name in ("logger", "_logger"):
+            return Opaque("lenient:logger")
         if name in mi.functions:
             return Closure(mi.functions[name], mi, None, name, None)
         if name in mi.classes:
@@ -1039,7 +1059,9 @@ class Path:
             else:
                 raise PyExc(self.mk_exc("TypeError", f"missing argument {p.arg} in call to {clo.qualname}"))
         extra = args[n_pos:]
-        if a.vararg:
+        if a.vararg and len(extra) == 1 and isinstance(extra[0], StarArgs):
+            fr_locals[a.vararg.arg] = extra[0].seq
+        elif a.vararg:
             fr_locals[a.vararg.arg] = tuple(extra)
         elif extra:
             raise PyExc(self.mk_exc("TypeError", f"too many positional arguments to {clo.qualname}"))
@@ -1135,6 +1157,8 @@ class Path:
             return f.fn(self, list(args), kwargs)
         if isinstance(f, ClassRef):
             return self.instantiate(f, args, kwargs)
+        if isinstance(f, Opaque) and str(f.tag).startswith("lenient:"):
+            return Opaque(f"{f.tag}()")
         if isinstance(f, SObj):
             cname = self.resolve_cls(f)
             m = self.find_method(cname, "__call__")
@@ -1695,6 +1719,9 @@ class Path:
             if isinstance(a, ast.Starred):
                 s = self.to_seq(self.eval(a.value))
                 if not isinstance(s, (list, tuple)):
+                    if a is call.args[-1]:
+                        args.append(StarArgs(SSeq(s.len, s.at, kind="tuple", tag=s.tag)))
+                        continue
                     s = self.concretize_len(s)
                 args.extend(s)
             else:
@@ -1719,6 +1746,14 @@ class Path:
             if isinstance(recv, SUnion):
                 recv = self.choose(recv)
             args, kwargs = self.eval_args(e)
+            if isinstance(recv, SSeq) and isinstance(e.func.value, ast.Name) and e.func.attr in ("append", "insert", "pop", "extend"):
+                return self.local_seq_mutation(e.func.value.id, recv, e.func.attr, args)
+            from . import models as _m
+            if isinstance(recv, _m.SuperProxy):
+                f = _m.super_getattr(self, recv, e.func.attr)
+                return self.call(f, args, kwargs)
+            if isinstance(recv, Opaque) and str(recv.tag).startswith("lenient:"):
+                return Opaque(f"{recv.tag}.{e.func.attr}()")
             if not isinstance(recv, (SObj, ClassRef, ModuleRef, EnumVal, SEnum)):
                 return models.call_method(self, recv, e.func.attr, args, kwargs)
             f = self.getattr(recv, e.func.attr)
@@ -1729,6 +1764,38 @@ class Path:
         # super().method(...) pattern
         args, kwargs = self.eval_args(e)
         return self.call(f, args, kwargs)
+
+    def local_seq_mutation(self, name, seq, method, args):
+        """list mutators on a symbolic-length list held by a local variable (no other alias can observe it)."""
+        f, cur = self.frame.lookup(name)
+        if f is None or cur is not seq:
+            raise Unsupported(f"mutation of aliased symbolic list {name}")
+        n = zint(seq.len)
+        if method == "append":
+            f.locals[name] = self.seq_concat(seq, [args[0]])
+            return None
+        if method == "extend":
+            f.locals[name] = self.seq_concat(seq, self.to_seq(args[0]))
+            return None
+        if method == "insert":
+            if isinstance(args[0], int) and args[0] == 0:
+                f.locals[name] = self.seq_concat([args[1]], seq)
+                return None
+            raise Unsupported("insert at non-zero index into symbolic list")
+        if method == "pop":
+            idx = args[0] if args else -1
+            if not self.branch(n > 0):
+                raise PyExc(self.mk_exc("IndexError", "pop from empty list"))
+            if idx == -1:
+                v = self.seq_at(seq, mk_int(n - 1))
+                f.locals[name] = self.seq_slice(seq, None, mk_int(n - 1))
+                return v
+            if idx == 0:
+                v = self.seq_at(seq, 0)
+                f.locals[name] = self.seq_slice(seq, 1, None)
+                return v
+            raise Unsupported("pop at symbolic index")
+        raise Unsupported(method)
 
     def eval_slice(self, s):
         if isinstance(s, ast.Slice):
@@ -1846,6 +1913,13 @@ class Path:
                 return r
             raise _NotPure()
         raise _NotPure()
+
+
+class StarArgs:
+    """Marker: bind the callee's *args parameter to this (possibly symbolic-length) sequence."""
+
+    def __init__(self, seq):
+        self.seq = seq
 
 
 class _NotPure(Exception):
